@@ -1000,6 +1000,12 @@ class Host(utils.EventEmitter):
         if self.pending_response:
             self.pending_response.set_exception(TransportLostError('transport lost'))
 
+        # All the links are gone with the transport: tear them down like disconnections
+        for handle in [*self.connections, *self.cis_links, *self.sco_links]:
+            self.on_disconnection(
+                handle, hci.HCI_CONNECTION_TERMINATED_BY_LOCAL_HOST_ERROR
+            )
+
         self.emit('flush')
 
     def on_hci_packet(self, packet: hci.HCI_Packet) -> None:
@@ -1329,30 +1335,32 @@ class Host(utils.EventEmitter):
 
         if event.status == hci.HCI_SUCCESS:
             logger.debug(f'### DISCONNECTION: {connection}, reason={event.reason}')
-
-            # Notify the listeners
-            self.emit('disconnection', handle, event.reason)
-
-            # Remove the handle reference
-            self.link_ts_flags.pop(handle, None)
-            _ = (
-                self.connections.pop(handle, 0)
-                or self.cis_links.pop(handle, 0)
-                or self.sco_links.pop(handle, 0)
-            )
-
-            # Flush the data queues
-            if self.acl_packet_queue:
-                self.acl_packet_queue.flush(handle)
-            if self.le_acl_packet_queue:
-                self.le_acl_packet_queue.flush(handle)
-            if self.iso_packet_queue:
-                self.iso_packet_queue.flush(handle)
+            self.on_disconnection(handle, event.reason)
         else:
             logger.debug(f'### DISCONNECTION FAILED: {event.status}')
 
             # Notify the listeners
             self.emit('disconnection_failure', handle, event.status)
+
+    def on_disconnection(self, handle: int, reason: int) -> None:
+        # Notify the listeners
+        self.emit('disconnection', handle, reason)
+
+        # Remove the handle reference
+        self.link_ts_flags.pop(handle, None)
+        _ = (
+            self.connections.pop(handle, 0)
+            or self.cis_links.pop(handle, 0)
+            or self.sco_links.pop(handle, 0)
+        )
+
+        # Flush the data queues
+        if self.acl_packet_queue:
+            self.acl_packet_queue.flush(handle)
+        if self.le_acl_packet_queue:
+            self.le_acl_packet_queue.flush(handle)
+        if self.iso_packet_queue:
+            self.iso_packet_queue.flush(handle)
 
     def on_hci_le_connection_update_complete_event(
         self, event: hci.HCI_LE_Connection_Update_Complete_Event
